@@ -119,8 +119,17 @@ def canonical(files):
             names[tok] = f"{pre}#{counters[pre]}"
         return names[tok]
     out = {}
+    lit = re.compile(r'"(?:[^"\\\n]|\\.)*"')
     for k in sorted(files):
-        out[k] = re.sub(r"\b(_?[A-Za-z][A-Za-z0-9_]*?)(\d+)\b", sub, files[k])
+        # generated names live in code, not in string literals: a literal's text (bank / column names, the First() message with
+        # the user's own parameter names) is left as it is, so a user name that merely LOOKS generated takes no number
+        parts, pos = [], 0
+        for m in lit.finditer(files[k]):
+            parts.append(re.sub(r"\b(_?[A-Za-z][A-Za-z0-9_]*?)(\d+)\b", sub, files[k][pos:m.start()]))
+            parts.append(m.group(0))
+            pos = m.end()
+        parts.append(re.sub(r"\b(_?[A-Za-z][A-Za-z0-9_]*?)(\d+)\b", sub, files[k][pos:]))
+        out[k] = "".join(parts)
     return out
 
 
